@@ -17,6 +17,7 @@ RULE = ("one case = one body (operator / assertion / conversion / array access /
         "distinct by (source, inputs); cell = body template x mechanism x effective guard x operand class")
 
 MECHS = ("guarded", "lazy", "block")
+OUTER_MECHS = MECHS + ("elif",)        # elif: the body is the second branch of an if/elif chain (effective guard = not e0 and c0)
 
 
 def bodies():
@@ -42,7 +43,7 @@ def main():
     tier = common.tier()
     items = []
     for tid, rty, tmpl in bodies():
-        for mech in MECHS:
+        for mech in OUTER_MECHS:
             items.append(dict(tid=tid, mech=mech, n=(4 if tier == "quick" else 100)))
     common.rng(PROP, "plan").shuffle(items)
     nshards = 16 if tier == "quick" else 32
@@ -71,6 +72,8 @@ def build(tid, rty, tmpl, mech, depth, bl, res, ins, consts, rnd=None):
     for d in range(depth):
         pre += "c%d = PrivValBool(I[%d])\n" % (d, n + d)
     pre += "alt = PrivVal(I[%d])\n" % (n + depth)
+    if mech == "elif":
+        pre += "e0 = PrivValBool(I[%d])\n" % (n + depth + 1)
     pre += "_ = BranchingValues()\n_.r = alt + 0\n"
     expr = case.expr
     ung = ("r = %s\n" % expr) if rty is not None else ("%s\n" % expr)
@@ -83,6 +86,8 @@ def build(tid, rty, tmpl, mech, depth, bl, res, ins, consts, rnd=None):
             lines = ["@guarded(c%d)" % d, "def _b%d():" % d] + body + ["    return r", "r = _b%d()" % d, "r = if_then_else(c%d, r, alt)" % d]
         elif m == "lazy":
             lines = ["def _t%d():" % d] + body + ["    return r", "r = if_then_else(c%d, _t%d, lambda: alt)" % (d, d)]
+        elif m == "elif":
+            lines = ["_.r = alt + 0", "if _if(e0, ctx=_):", "    _.r = alt + 1", "if _elif(lambda: c%d, ctx=_):" % d] + body + ["    _.r = r", "_endif(ctx=_)", "r = _.r"]
         else:
             lines = ["_.r = alt + 0", "if _if(c%d, ctx=_):" % d] + body + ["    _.r = r", "_endif(ctx=_)", "r = _.r"]
     g = "\n".join(lines + ["res = r"]) + "\n"
@@ -154,16 +159,18 @@ def worker(job):
             brnd = random.Random(rnd.random())
             mix_seed = brnd.random()
             case, pre, ung, gsrc = build(tid, rty, tmpl, mech, depth, bl, res, valid, consts, random.Random(mix_seed))
-            base_valid = run(G, N, pre + ung, valid + [1] * depth + [alt], bl, res, p)
+            tails = [[alt]] if mech != "elif" else [[alt, 0], [alt, 1]]
+            base_valid = run(G, N, pre + ung, valid + [1] * depth + tails[0], bl, res, p)
             for oclass, ops in (("valid", valid), ("invalid", invalid)):
                 if ops is None:
                     continue
                 case, pre, ung, gsrc = build(tid, rty, tmpl, mech, depth, bl, res, ops, consts, random.Random(mix_seed))
-                U = base_valid if oclass == "valid" else run(G, N, pre + ung, ops + [1] * depth + [alt], bl, res, p)
-                for combo in itertools.product((1, 0), repeat=depth):
-                    inputs = ops + list(combo) + [alt]
+                U = base_valid if oclass == "valid" else run(G, N, pre + ung, ops + [1] * depth + tails[0], bl, res, p)
+                for combo, tail in itertools.product(itertools.product((1, 0), repeat=depth), tails):
+                    inputs = ops + list(combo) + tail
                     Gd = run(G, N, pre + gsrc, inputs, bl, res, p)
-                    eff = all(combo)
+                    eff = all(combo) and (len(tail) == 1 or tail[1] == 0)
+                    exp_alt = alt + 1 if (len(tail) == 2 and tail[1] == 1) else alt
                     key = (pre + gsrc, tuple(inputs))
                     cell = "%s|%s|%s|%s" % (tid, mech, "true" if eff else "false", oclass)
                     R.case(cell=cell, key=key, nontrivial=len(Gd.snap["constraints"]) > 0)
@@ -173,7 +180,7 @@ def worker(job):
                         judge_true(R, U, Gd, rty, tid, det, api_number, res)
                     else:
                         R.count("false_guard_runs")
-                        judge_false(R, base_valid, Gd, rty, tid, oclass, alt, det, r1cs, api_number, res, case)
+                        judge_false(R, base_valid, Gd, rty, tid, oclass, exp_alt, det, r1cs, api_number, res, case)
                     R.sample(dict(src=pre + gsrc, inputs=inputs, guard=list(combo), operands=oclass,
                                   raised=repr(Gd.exc)[:80] if Gd.exc else None, constraints=len(Gd.snap["constraints"])), cap=6)
             # solver halves on small instances
@@ -248,6 +255,8 @@ def classify_false_raise(tid, exc, case):
 
 def solver_halves(R, capture, solve, N, tid, rty, tmpl, mech, depth, bl, res, valid, invalid, consts, alt, p, rnd):
     # (a) false guard: the value selected from the other branch is uniquely determined
+    if mech == "elif":
+        return      # the solver halves use the three plain mechanisms
     if rty is not None:
         combo = [0] + [rnd.randint(0, 1) for _ in range(depth - 1)]
         rnd.shuffle(combo)
